@@ -422,12 +422,28 @@ func (s *Server) maybeUpgrade(
 			}
 			t.Send(pong)
 
-			// Force a polling cycle to ensure a fast upgrade.
+			// Force polling cycles to ensure a fast upgrade: the client waits for its pending
+			// poll request to be answered before it switches to the new transport. Keep
+			// releasing poll requests until the upgrade is done (as the reference server does).
 			noop, err := parser.NewPacket(parser.PacketTypeNoop, false, nil)
 			if err != nil {
 				return
 			}
-			go socket.Send(noop)
+			go func() {
+				timeout := time.After(s.upgradeTimeout)
+				for {
+					socket.Send(noop)
+					select {
+					case <-done:
+						return
+					case <-socket.closeChan:
+						return
+					case <-timeout:
+						return
+					case <-time.After(100 * time.Millisecond):
+					}
+				}
+			}()
 		case parser.PacketTypeUpgrade:
 			once.Do(func() { close(done) })
 			socket.upgradeTo(t, c)
